@@ -205,6 +205,7 @@ static int cmp_rev(const void *a, const void *b, void *p) { return cmp_common(a,
 static int cmp_sel(const void *a, const void *b, void *p) { return cmp_common(a, b, p, F_SEL); }
 static cstl_compare_func_t *const cmpfns[3] = { cmp_fwd, cmp_rev, cmp_sel };
 
+static void nest_reset(int np);
 static void st_create(int scope)
 {
     int i;
@@ -227,6 +228,7 @@ static void st_create(int scope)
         memset(cnt[i], 0, sizeof(cnt[i][0]) * C->nk);
     }
     cur_model = -1; cur_push = NULL;
+    nest_reset(C->np);
 }
 static void st_destroy(void)
 {
@@ -397,18 +399,169 @@ static void count_bucket(int which, int size)
     vrt_ctr[bucket_ids[which][b]]++;
 }
 
+/* ---- nested heaps (mode "clear", C15): elements that own a heap of their own ----
+ * Right before a clear some of the held elements (all, several, one) are given a private, non-empty heap of
+ * individually allocated sub-elements, with a comparison function and a priv of its own.  The outer clear callback
+ * destroys what the element owns first: it clears the inner heap through the library with ANOTHER callback function.
+ * That is a clear of another heap running inside a clear: every outer element must still reach the outer callback
+ * exactly once, every sub-element the callback of its own clear call exactly once, nothing the wrong function,
+ * nothing after its callback returned, and both heaps end empty and usable.  Half of the inner heaps keep the
+ * overwritten sub-elements until their clear has returned and verify the overwrite then (a write after the callback
+ * shows without a sanitizer, a read runs into 0xa5a5.. links), the others free them at once. */
+#define SMAGIC 0x5ab4ea95u
+#define SUBMAX 4
+struct subh;
+struct felem {
+    uint32_t magic;
+    int key;
+    struct subh *owner;
+    uint64_t pad0;
+    struct cstl_heap_node node;
+    uint64_t pad1;
+};
+struct subh {
+    uint32_t magic;
+    int n, seen, hold, owner_id;
+    struct felem *se[SUBMAX];           /* held sub-elements (NULL once handed over) */
+    struct felem *held[SUBMAX];         /* hold: handed over and overwritten, not freed yet */
+    struct felem *spare;                /* for the push that proves the cleared inner heap usable */
+    struct cstl_heap h;
+};
+static struct subh *SUB[MAXE];          /* by element id */
+static struct subh *cur_sub;            /* the inner heap being cleared right now */
+static int outer_running, inner_done, nsubs, sub_token;
+static void nest_reset(int np)
+{
+    int i;
+    for (i = 0; i < np; i++) SUB[i] = NULL;
+    cur_sub = NULL; outer_running = 0; inner_done = 0; nsubs = 0;
+}
+static int sub_cmp(const void *a, const void *b, void *p)
+{
+    const struct felem *x = a, *y = b;
+    VRT_CHECK(p == (void *)&sub_token, "heap.nested.cmp.priv", "comparison of an inner heap called with priv %p", p);
+    VRT_CHECK(x->magic == SMAGIC && y->magic == SMAGIC && x->owner == y->owner, "heap.nested.cmp.foreign-element",
+              "comparison of an inner heap called with something that is not one of its elements");
+    return (x->key > y->key) - (x->key < y->key);
+}
+static struct felem *new_felem(struct subh *s, int key)
+{
+    struct felem *x = vrt_alloc(sizeof(*x));
+    memset(x, 0x5e, sizeof(*x));
+    x->magic = SMAGIC; x->key = key; x->owner = s;
+    return x;
+}
+static void sub_attach(struct elem *e, unsigned salt)
+{
+    struct subh *s = vrt_alloc(sizeof(*s));
+    int i;
+    memset(s, 0x5e, sizeof(*s));
+    s->magic = SMAGIC; s->n = 1 + (int)(salt % SUBMAX); s->seen = 0; s->hold = (salt >> 3) & 1; s->owner_id = e->id;
+    VRT_OP2("heap.nested.fill", "inner heap of e%ld, %ld sub-elements", e->id, s->n);
+    if (salt & 4) cstl_heap_init(&s->h, sub_cmp, &sub_token, offsetof(struct felem, node));
+    else s->h = (struct cstl_heap)CSTL_HEAP_INITIALIZER(struct felem, node, sub_cmp, &sub_token);
+    for (i = 0; i < SUBMAX; i++) s->se[i] = s->held[i] = NULL;
+    for (i = 0; i < s->n; i++) {
+        s->se[i] = new_felem(s, (int)((salt >> (4 + 2 * i)) & 3));
+        cstl_heap_push(&s->h, s->se[i]);
+    }
+    s->spare = new_felem(s, 1);
+    SUB[e->id] = s; nsubs++;
+    VRT_COUNT("nested.attached");
+}
+static void sub_clear_cb(void *ev, void *p)
+{
+    struct felem *x = ev;
+    int i, k = -1;
+    VRT_CHECK(cur_sub != NULL, "heap.clear.nested.callback-outside-its-clear",
+              "the callback given to the clear of an inner heap was invoked while no inner clear is running");
+    VRT_CHECK(p == NULL, "heap.clear.nested.priv", "inner clear callback got priv %p", p);
+    for (i = 0; i < cur_sub->n; i++) if (cur_sub->se[i] == x) k = i;
+    VRT_CHECK(k >= 0, "heap.clear.nested.foreign-element", "inner clear callback was handed something that is not a held element of the inner heap being cleared (or an element twice)");
+    VRT_CHECK(x->magic == SMAGIC && x->owner == cur_sub, "heap.clear.nested.element-damaged", "sub-element handed to the inner clear callback does not carry its owner's marks any more");
+    cur_sub->se[k] = NULL;
+    cur_sub->seen++;
+    memset(x, 0xa5, sizeof(*x));
+    if (cur_sub->hold) cur_sub->held[k] = x; else vrt_free(x);
+    VRT_COUNT("clear.nested.handed-over");
+}
+/* the owning element is being destroyed (inside the outer clear callback): clear its heap through the library */
+static void sub_destroy(int id)
+{
+    struct subh *s = SUB[id], *prev = cur_sub;
+    int i;
+    size_t k;
+    cur_sub = s; s->seen = 0;
+    VRT_OP2("heap.nested.clear", "inner heap of e%ld (%ld sub-elements), from the clear callback of the outer heap", id, s->n);
+    cstl_heap_clear(&s->h, sub_clear_cb);
+    cur_sub = prev;
+    VRT_CHECK(s->seen == s->n, "heap.clear.nested.count", "inner clear handed over %d of %d sub-elements", s->seen, s->n);
+    for (i = 0; i < s->n; i++) if (s->held[i] != NULL) {
+        const unsigned char *b = (const unsigned char *)s->held[i];
+        for (k = 0; k < sizeof(struct felem) && b[k] == 0xa5; k++) ;
+        VRT_CHECK(k == sizeof(struct felem), "heap.clear.nested.touched-after-callback", "sub-element written at byte %zu after its clear callback had returned", k);
+        vrt_free(s->held[i]); s->held[i] = NULL;
+        VRT_COUNT("clear.nested.overwrite-verified");
+    }
+    VRT_CHECK(cstl_heap_size(&s->h) == 0 && cstl_heap_get(&s->h) == NULL,
+              "heap.clear.nested.not-empty", "inner heap after its clear: size %zu / get not NULL", cstl_heap_size(&s->h));
+    /* usable like a fresh one */
+    cstl_heap_push(&s->h, s->spare);
+    VRT_CHECK(cstl_heap_size(&s->h) == 1 && cstl_heap_get(&s->h) == (const void *)s->spare,
+              "heap.clear.nested.reuse", "push on the cleared inner heap: size %zu, get is not the one element", cstl_heap_size(&s->h));
+    VRT_CHECK(cstl_heap_pop(&s->h) == (void *)s->spare && cstl_heap_size(&s->h) == 0, "heap.clear.nested.reuse", "pop on the re-used inner heap did not return its only element");
+    vrt_free(s->spare);
+    memset(s, 0xa5, sizeof(*s));
+    vrt_free(s);
+    SUB[id] = NULL; nsubs--;
+    inner_done++;
+    VRT_COUNT("clear.nested.heaps-cleared");
+}
+/* give some elements held by model m a heap of their own; which ones changes from clear to clear */
+static void sub_attach_some(int m)
+{
+    const unsigned salt = vrt_case_tick() * 2654435761u + 0x9e37u;
+    const int len = Mn[m], variant = (int)((salt >> 28) % 4);
+    int i, owners = 0;
+    for (i = 0; i < len; i++) {
+        const unsigned h = (salt ^ (unsigned)i * 40503u) * 2246822519u >> 16;
+        int own;
+        switch (variant) {
+        case 0: own = len <= 8 || h % 4 == 0; break;                                    /* all (larger heaps: every fourth) */
+        case 1: own = M[m][i]->key == best[m] || h % 3 == 0; break;                     /* the top priority (the root among them) and some others */
+        case 2: own = len <= 16 ? h % 2 == 0 : h % 8 == 0; break;                       /* some */
+        default: own = len <= 16 ? ((salt >> 8) % (unsigned)len == (unsigned)i) : h % 16 == 0; break;   /* one, anywhere */
+        }
+        if (!own || SUB[M[m][i]->id] != NULL) continue;
+        sub_attach(M[m][i], h ^ (salt >> 7));
+        owners++;
+    }
+    if (owners >= 2) VRT_COUNT("clear.nested.several-owners");
+    if (owners > 0 && owners < len) VRT_COUNT("clear.nested.owners-and-plain-elements");
+}
+
 /* clear callback: exactly-once state machine, poison, free */
-static int clear_model, clear_seen;
+static int clear_model, clear_seen, clear_size;
 static void clear_cb(void *e, void *p)
 {
     struct elem *x = lookup(e);
     int id, key;
+    VRT_CHECK(cur_sub == NULL, "heap.clear.nested.wrong-callback", "the clear of an inner heap invoked the callback given to the clear of the outer heap");
+    VRT_CHECK(outer_running, "heap.clear.callback-outside-its-clear", "clear callback invoked while its clear is not running");
     VRT_CHECK(p == NULL, "heap.clear.priv", "clear callback got priv %p", p);
     VRT_CHECK(x != NULL && x->magic == MAGIC, "heap.clear.non-element", "clear callback for a non-element / twice");
     VRT_CHECK(x->where == clear_model, "heap.clear.non-member", "clear callback for element %d not in the heap being cleared (model says %d)",
               x->id, x->where);
     id = x->id; key = x->key;
     clear_seen++;
+    if (inner_done) VRT_COUNT("clear.nested.outer-went-on-after-inner-clear");
+    if (SUB[id] != NULL) {
+        if (clear_seen == 1) VRT_COUNT("clear.nested.first-handed-over-owns-a-heap");
+        if (clear_seen == clear_size) VRT_COUNT("clear.nested.last-handed-over-owns-a-heap");
+        if (clear_seen > 1 && clear_seen < clear_size) VRT_COUNT("clear.nested.inner-element-owns-a-heap");
+        sub_destroy(id);
+        VRT_OP2("heap.clear", "model %ld (goes on after the nested clear in the callback for e%ld)", clear_model, id);
+    }
     hunreg(x);
     memset(x, 0xa5, sizeof(*x));
     vrt_free(x);
@@ -595,11 +748,14 @@ static int st_apply(uint32_t op, int audit)
     case K_CLEAR:
         vrt_state(sizeb == 0 ? "empty" : "nonempty");
         VRT_OP2("heap.clear", "h%ld size %ld", h1, sizeb);
-        clear_model = m; clear_seen = 0;
+        if (is_clear_mode && sizeb > 0) { sub_attach_some(m); VRT_OP2("heap.clear", "h%ld size %ld", h1, sizeb); }
+        clear_model = m; clear_seen = 0; clear_size = sizeb; outer_running = 1; inner_done = 0;
         cur_model = m;
         cstl_heap_clear(&H[h1], clear_cb);
-        cur_model = -1;
+        cur_model = -1; outer_running = 0;
         VRT_CHECK(clear_seen == sizeb, "heap.clear.count", "clear handed over %d of %d elements", clear_seen, sizeb);
+        VRT_CHECK(nsubs == 0, "heap.clear.nested.owner-not-handed-over", "%d elements that own a heap were not handed to the clear callback", nsubs);
+        if (inner_done) VRT_COUNT("op.clear.with-nested-clears");
         Mn[m] = 0; best[m] = -1;
         memset(cnt[m], 0, sizeof(cnt[m][0]) * C->nk);
         VRT_COUNT("op.clear");
@@ -1110,7 +1266,12 @@ static const char *const required[] = {
 };
 static const char *const required_clear[] = {
     "op.push", "op.pop", "op.pop.empty", "op.get.empty", "op.clear.nonempty", "clear.handed-over",
-    "probe.clear-then-reuse", "closure.probes", "audit.heap", "closure.states", "random.histories", NULL
+    "probe.clear-then-reuse", "closure.probes", "audit.heap", "closure.states", "random.histories",
+    /* a clear inside a clear */
+    "nested.attached", "clear.nested.handed-over", "clear.nested.heaps-cleared", "clear.nested.overwrite-verified",
+    "clear.nested.first-handed-over-owns-a-heap", "clear.nested.last-handed-over-owns-a-heap", "clear.nested.inner-element-owns-a-heap",
+    "clear.nested.several-owners", "clear.nested.owners-and-plain-elements", "clear.nested.outer-went-on-after-inner-clear",
+    "op.clear.with-nested-clears", NULL
 };
 static const struct vrt_harness Hd = { "heap", ncases, run_case, winit, NULL, required, 16 };
 static const struct vrt_harness Hd_clear = { "heap", ncases, run_case, winit, NULL, required_clear, 16 };
